@@ -235,6 +235,7 @@ func NewService(name string) *Service {
 		workerCount:   defaultWorkerCount,
 		inChannelSize: defaultInChannelSize,
 	}
+	s.workcond.L = &s.mu
 	s.Mux.Register(s)
 	return s
 }
@@ -677,7 +678,11 @@ func (s *Service) serve(nc Conn) error {
 	s.nc = nc
 	s.mu.Unlock()
 	s.inCh = inCh
-	s.workcond = sync.Cond{L: &s.mu}
+	// The condition variable lives as long as the service: a submission of a
+	// previous run may still be signaling it when the service is served again.
+	if s.workcond.L == nil {
+		s.workcond.L = &s.mu
+	}
 	s.workbuf = make([]*work, s.inChannelSize)
 	s.workqueue = s.workbuf[:0]
 	s.rwork = make(map[string]*work, s.inChannelSize)
